@@ -10,7 +10,7 @@
    the order in which they were appended.  [esir_log] = the status changes of the run in
    order (Model/EventSIRLog.v).  [rect sF u] is rec_time[u] of the final state. *)
 From EoNV Require Import Prelude Samp Graph EventSIR EventSIRP EventSIRInv EventSIRMain EventSIRPred.
-From EoNV Require Import Investigation EventSIRLog EventSIRRows EventSIRTraj EventSIRC04 EventSIRC09.
+From EoNV Require Import Investigation EventSIRLog EventSIRRows EventSIRTraj EventSIRC04 EventSIRC09 EventSIRChk EventSIRChkP.
 
 (* every full-data run, EVERY tie policy: the transmissions list is valid ([tx_valid],
    spelled out clause by clause below) *)
@@ -72,6 +72,31 @@ Theorem C09_esir_forest : forall t s v, In (t, s, v) txs -> rooted txs v /\ exis
 Proof. exact (tv_rooted _ _ _ _ _ _ _ _ _ _ V). Qed.
 End Clauses.
 
+(* --- the decidable checker [tx_validb] (Model/EventSIRChk.v; extracted and applied to the
+   IMPLEMENTATION's transmissions() by harness/esir_lib.py [xchk]): it needs only the graph,
+   the rules, the initial sets, tmin/tmax and the list.  Every full-data run of the model
+   passes it; acceptance means [tx_spec]: every entry (t, s, v), relative to the entries [a]
+   before it ([entry_spec a (t,s,v)]): no earlier entry is later; tmin <= t < tmax; v is a node,
+   not initially recovered, without an earlier entry; s = None: v initially infected and
+   t = tmin; s = Some u: u -> v is an edge, u has an earlier entry (tu,_,u), t = tu + delay u v,
+   tu <= t <= tu + dur u (closed interval); every initial node has a source-less entry; no
+   node has two entries. *)
+Theorem C09_esir_checker_accepts_every_run : forall tb g delay dur i0 r0 tmin tmax fuel,
+  esir_okb2 g delay dur i0 r0 tmin tmax = true -> (esir_fuel g i0 <= fuel)%nat ->
+  exists out cs fd, esir_det tb g delay dur i0 r0 tmin tmax true fuel = Ok (out, cs) /\ so_full out = Some fd /\
+                    tx_validb g delay dur tmin tmax i0 r0 (fd_trans fd) = true.
+Proof. exact esir_transmissions_pass_checker. Qed.
+
+Theorem C09_esir_checker_sound : forall g delay dur tmin tmax i0 r0 txs,
+  tx_validb g delay dur tmin tmax i0 r0 txs = true ->
+  (forall a x b, txs = a ++ x :: b -> entry_spec g delay dur tmin tmax i0 r0 a x) /\
+  (forall v, In v i0 -> exists t, In (t, None, v) txs) /\
+  NoDup (map tx_tgt txs).
+Proof.
+  intros g delay dur tmin tmax i0 r0 txs H. destruct (tx_validb_sound g delay dur tmin tmax i0 r0 txs H) as [A B C].
+  exact (conj A (conj B C)).
+Qed.
+
 (* ---------------- non-vacuity ---------------- *)
 (* a path 0 - 1 - 2, all delays 2, all durations 2: each transmission happens at exactly the
    source's recovery time; under the code's tie policy the recovery is even processed first
@@ -98,6 +123,18 @@ Example C09_esir_example :
   end.
 Proof. vm_compute. repeat split. Qed.
 
+(* the checker rejects: a transmission after the source's recovery (3 > 0 + 2), a wrong date,
+   a target infected twice, a missing initial entry *)
+Example C09_esir_checker_rejects :
+  let chk := tx_validb p3 (fun _ _ => Some 2) (fun _ => Some 2) 0 None [0%N] [] in
+  chk [(0, None, 0%N); (2, Some 0%N, 1%N); (4, Some 1%N, 2%N)] = true /\
+  chk [(0, None, 0%N); (3, Some 0%N, 1%N)] = false /\
+  chk [(0, None, 0%N); (2, Some 0%N, 1%N); (4, Some 0%N, 2%N)] = false /\
+  chk [(0, None, 0%N); (2, Some 0%N, 1%N); (4, Some 1%N, 0%N)] = false /\
+  chk [(2, Some 0%N, 1%N)] = false.
+Proof. vm_compute. repeat split. Qed.
+
+Print Assumptions C09_esir_checker_rejects.
 Print Assumptions C09_esir_transmissions_valid.
 Print Assumptions C09_esir_sourced_entries.
 Print Assumptions C09_esir_targets.
@@ -106,4 +143,6 @@ Print Assumptions C09_esir_complete.
 Print Assumptions C09_esir_sourceless_entries.
 Print Assumptions C09_esir_infected_at_most_once_and_ordered.
 Print Assumptions C09_esir_forest.
+Print Assumptions C09_esir_checker_accepts_every_run.
+Print Assumptions C09_esir_checker_sound.
 Print Assumptions C09_esir_example.
